@@ -216,6 +216,44 @@ for s in seeds:
     except Exception as e:
         o = {"build_exc": interp.norm_exc(e)}
     out[str(s)] = o
+# a generator whose parameter is a set of strings: its module name must not depend on the hash seed
+from typing import FrozenSet
+_SP = h.paramclass(type("SetP", (), {"tags": h.Param(dtype=FrozenSet[str], desc="tags"), "k": h.Param(dtype=int, desc="k", default=0)}))
+def _setgen(p):
+    m = h.Module()
+    m.p = h.Port()
+    return m
+_setgen.__name__ = "SetGen"
+_setgen.__annotations__ = {"p": _SP, "return": h.Module}
+_SetGen = h.generator(_setgen)
+try:
+    out["setparam"] = {"proto": [_SetGen(tags=frozenset(["alpha", "beta", "gamma", "delta", "eps"]), k=i).name for i in range(3)]}
+except Exception as e:
+    out["setparam"] = {"proto": ["exc:" + type(e).__name__]}
+# the repository's examples and built-in generators (Series, MosStack, ...), exported one by one
+from profiles import examples
+import io
+for s in seeds[: max(10, len(seeds) // 3)]:
+    escn = examples.generate(s)
+    digs = []
+    for op in escn["ops"]:
+        if op[0] != "item":
+            continue
+        try:
+            m = examples.build(op[1], op[2])
+            pkg = h.to_proto(m)
+            d = hashlib.blake2b(pkg.SerializeToString(deterministic=True), digest_size=10).hexdigest()
+            if op[1] in ("series_x", "series_r", "rladder", "bundles", "cmdm", "balun"):
+                dest = io.StringIO()
+                try:
+                    h.netlist(pkg, dest=dest, fmt="spectre")
+                    d += ":" + hashlib.blake2b(dest.getvalue().encode(), digest_size=6).hexdigest()
+                except Exception as e:
+                    d += ":exc"
+            digs.append([op[1], d])
+        except Exception as e:
+            digs.append([op[1], "exc:" + type(e).__name__])
+    out["ex" + str(s)] = {"proto": digs}
 print("RESULT" + json.dumps(out))
 """
 
@@ -253,8 +291,9 @@ def layer2_run(seeds, hash_seeds, verif_seed=0, timeout=600):
         results.append((hs, junk, json.loads(line[0][6:])))
     findings = []
     ref_hs, ref_junk, ref = results[0]
+    keys = list(seeds) + ["ex" + str(s) for s in seeds] + ["setparam"]
     for hs, junk, r in results[1:]:
-        for s in seeds:
+        for s in keys:
             if r.get(str(s)) != ref.get(str(s)):
                 findings.append(
                     {
